@@ -102,6 +102,9 @@ def extra_checks(tier, seed):
              "witness": {"classes": bad}, "replay": {"classes": bad}}]
 
 
+# checks whose proof units establish the callee contracts applied here (re-verified by this check, see main.dependency_units)
+DEPENDENCIES = ['C05']
+
 META = {
     "level": "proof",
     "bounds": {"response classes": "all classes reachable from a live command class (34), taken from the registry",
